@@ -16,7 +16,7 @@ pub fn def() -> PropDef {
         check,
         nontrivial,
         rule: "enumeration (by run index) of all 15 non-empty subsets of {Addr, OwningAddr, Sender, Caller} left alive after a generated conversion/drop program (handles derived along different conversion chains, some replaced by clones of themselves, dropped in random order), then: interval ticks counted on the virtual clock, every weak handle taken earlier upgraded, identity asked through every surviving callable handle, and Context::stop / Context::restart / weak self-upgrade issued from inside a handler reached through a surviving handle; x seeded schedules; non-trivial = the surviving subset is not the full set; distinct = distinct order of client-op and callback events",
-        needed_probes: &["c15_upgrade_checked", "c15_ctx_op_checked", "c15_ticks_checked", "c15_identity_checked", "c15_subset_1", "c15_subset_8", "c15_subset_15"],
+        needed_probes: &["c15_upgrade_checked", "c15_ctx_op_checked", "c15_ticks_checked", "c15_ticks_after_restart_checked", "c15_identity_checked", "c15_subset_1", "c15_subset_8", "c15_subset_15"],
         quick_runs: 200_000,
         thorough_runs: 1_000_000,
         block: 1,
@@ -56,6 +56,11 @@ pub fn generate(g: &mut G, index: u64) -> Scenario {
         on_start: vec![Work::Timer(TimerSpec { id: 0, kind: g.pick(&[TimerKind::Interval, TimerKind::IntervalWith]), period, handler_sleep: 0 })],
         ..Default::default()
     };
+    let mut spec = spec;
+    if g.chance(1, 3) {
+        // `started()` goes on for a while after it has registered the timer (also on a restart)
+        spec.on_start.push(Work::Sleep(period * g.range(1, 3) + g.below(3)));
+    }
     sc.actors.push(spec);
     let mut ops = vec![Op::Spawn { spec: 0, slot: 0 }, Op::Clone { h: 0, to: 1 }];
     // strong kinds, along different conversion chains
@@ -241,10 +246,32 @@ pub fn check(v: &View) -> Vec<Violation> {
         if let Some(s) = sleep {
             if a.dead.is_none_or(|d| d > s.end.unwrap()) {
                 crate::log::probe("c15_ticks_checked");
-                let n = v.out.log.iter().filter(|r| matches!(r.ev, Ev::TimerSubmit { aidx: 0, .. }) && r.st.vtime > s.begin_vt && r.st.vtime <= s.end_vt).count() as u64;
-                let expect = (s.end_vt - s.begin_vt) / period;
+                // (counted from the end of `started()`: while that is still going on a waiting tick
+                // legitimately sits in front of a full bounded mailbox)
+                let from = v.cbs_of(a).find(|c| c.cb == Cb::Started).map(|c| c.exit_vt).unwrap_or(0).max(s.begin_vt);
+                let n = v.out.log.iter().filter(|r| matches!(r.ev, Ev::TimerSubmit { aidx: 0, .. }) && r.st.vtime > from && r.st.vtime <= s.end_vt).count() as u64;
+                let expect = s.end_vt.saturating_sub(from) / period;
                 if n + 1 < expect {
                     out.push(violation(P, "timer-stops-while-held", &format!("held={held}"), format!("only {n} interval submissions in virtual [{} , {}] (period {period}, expected about {expect}) although the actor is held by {held}", s.begin_vt, s.end_vt)));
+                }
+            }
+        }
+    }
+    // ... and after a self-restart: the timer that the new incarnation's `started()` registers
+    // keeps firing (ideal clock; from the end of that `started()` to the end of the last sleep)
+    if v.sc.sched.racing_per_mille == 0 && !v.fault_injected(a) {
+        let period = v.sc.actors[0].on_start.iter().find_map(|w| if let Work::Timer(t) = w { Some(t.period) } else { None }).unwrap_or(10);
+        let restarted = v.out.log.iter().any(|r| matches!(r.ev, Ev::CtxRes { aidx: 0, what: CtxOp::Restart, ok: true, .. }));
+        let second_start = v.cbs_of(a).filter(|c| c.cb == Cb::Started).nth(1).filter(|c| c.exit.is_some() && c.ok);
+        let last_sleep = v.ops.iter().filter(|o| matches!(o.inner, Op::Sleep(_)) && o.ended()).last();
+        if let (true, Some(st), Some(sl)) = (restarted, second_start, last_sleep) {
+            let from = st.enter_vt; // the timer is registered at the beginning of started()
+            let alive = a.dead.is_none_or(|d| d > sl.end.unwrap()) && v.stop_requests(0).is_empty();
+            if alive && sl.end_vt > from + 2 * period && st.exit_vt < sl.end_vt {
+                crate::log::probe("c15_ticks_after_restart_checked");
+                let n = v.out.log.iter().filter(|r| matches!(r.ev, Ev::TimerSubmit { aidx: 0, .. }) && r.st.vtime > from && r.st.vtime <= sl.end_vt).count() as u64;
+                if n == 0 {
+                    out.push(violation(P, "timer-stops-while-held", &format!("after-restart:held={held}"), format!("no interval submission in virtual ({from}, {}] (period {period}) after the self-restart although the actor is held by {held}", sl.end_vt)));
                 }
             }
         }
